@@ -43,6 +43,13 @@ def make_cases(rng, tier, diff_here):
             wide = [NAMES[i % 3] for i in range(width)]
             cases.append(base("ExecuteDAGModel", rules, layers=[wide, [NAMES[3]]]))
             cases.append(base("ExecuteDAGModel", rules, layers=[[NAMES[3]], wide]))
+    # a name repeated in a layer of which ONE occurrence fails (the first execution only) while another succeeds and finishes later
+    # (also with the failure inside a conc block whose other child is still running): the layer failed, whichever finished last
+    for ly in ([["ra", "ra"], ["rb"]], [["rb"], ["ra", "rc", "ra"], ["rd"]], [["ra", "zz", "ra", "ra"], ["rb", "rc"]]):
+        for kind in ("flaky", "concflaky"):
+            rules = rules_with_failing(4, ())
+            rules[0]["kind"] = kind
+            cases.append(base("ExecuteDAGModel", rules, layers=ly))
     n_rand = 150 if tier == "quick" else 5000
     for _ in range(n_rand):
         cases.append(rand_case(rng, "ExecuteDAGModel", maxk=6 if tier == "quick" else 10))
@@ -50,7 +57,7 @@ def make_cases(rng, tier, diff_here):
 
 
 RULE = ("systematic: 13 layerings (0-4 layers, empty layers, unknown names incl. the empty string, duplicate names, widths 1-3) x failing subsets (none, each single rule, pairs) x fresh/previously-used engine, "
-        "layers 70 and 130 names wide; one rule held at its gate in most calls so that a missing layer barrier shows in the trace; random: 150 (thorough 5000) layerings.")
+        "layers 70 and 130 names wide; layers naming a rule two or three times of which only the first execution fails (the others succeed and finish later); one rule held at its gate in most calls so that a missing layer barrier shows in the trace; random: 150 (thorough 5000) layerings.")
 
 
 def main(run):
